@@ -230,142 +230,189 @@ Logon
 ,
     // c175
 } ")).
-Eval vm_compute in ("<<<M271>>>" ++ check (runes_of_ascii "// packet A { u8 x, }
-packet string_ {
-@tag( 4294967296)
-@calculatedFrom( """ ++ [128512]%N ++ runes_of_ascii """ )@calculatedFrom( ""1"" )  leftPad @lengthOf( //	t
-int )  ``
-// `tick` ""quote"" 'q'
+Eval vm_compute in ("<<<M213>>>" ++ check (runes_of_ascii "
+packet body
+{@tag(
+    3 ) i16 options1 ,  repeat string
+body ,
+@calculatedFrom( // trailing space 
+""a\""b""
+) x_y_z @calculatedFrom(
+""a\\"") `it's` , match o as BodyLength
+{ 00
+:
+pack,
+1 : u	,
+[255,255,""// no comment"" ]
+    : Packet	[ 65535 ] :  i64_ , }
+// @lengthOf(
 //
-, repeat Packet{ zchar[
-0
-    // packet A { u8 x, }
-    ]options1 `line1
-line2` , },
-    @calculatedFrom( """"	) float32
-    u8x
-    ,
-float , i64_
-{ packetx {  i16	falsey, f32 repeatCount
-    `{ , }`,} ,
-    repeat char[
-0  ] i8i8, string	o @lengthOf( options1 ) , } , i64_
-@calculatedFrom(""a\""b"" )
-/// triple
-//x
-`a\`  , @rightPad ( )@lengthOf( packetx
-    )
-match matchKey as stringy{ ""a	b"":
-body,}
-    ,
-    // " ++ [27880; 37322]%N ++ runes_of_ascii "
-    @lengthOf(
-u128
-) @calculatedFrom(
-    ""`tick`"" ) @rightPad
-    () // @lengthOf(
-repeat falsey
-string_ `" ++ [28040; 24687; 31867; 22411]%N ++ runes_of_ascii "`
-    ,string As`it's`
-    ,
-@calculatedFrom( """ ++ [28040; 24687]%N ++ runes_of_ascii """ ) repeat rootA { float64
-body	,
-} , } options {zchar
-=
-    // " ++ [128512]%N ++ runes_of_ascii " emoji
-    true  ;  i8i8= 3; } packet	leftPad{	@calculatedFrom(
+,// a // b
+@calculatedFrom( // c
+""" ++ [233]%N ++ runes_of_ascii "t" ++ [233]%N ++ runes_of_ascii """ ) string// `tick` ""quote"" 'q'
+len `tab	here`,
+    @tag( 0123456789
+) repeat
+    //	t
+    matchKey A `a\`,
+    i8i8 Packet , stringy @calculatedFrom( ""x y"" ) ,f32a As
+`crlf
+line` ,u128{ repeat
+    int  {
+    repeat
+    zchar[255 ] a1`{ , }`
+,
+// a // b
+// a // b
+match calculatedFrom as body//	t
+{
+    0 // " ++ [27880; 37322]%N ++ runes_of_ascii "
+:body	42
     // c
-    """" ) //x
-@leftPad( ' ' )
-@calculatedFrom(
-""abc"" ) repeat MetaDataX{  char[] Pad , body
-@lengthOf( Foo )
+    :tag // @lengthOf(
+, ""1""	:packetx , ""it's"":  roots,}, i32 u @calculatedFrom(// " ++ [128512]%N ++ runes_of_ascii " emoji
+""a\\"" ) ,
+}	,
+string_`crlf
+line`, _x  , repeat lengthOf crc ,	}, // " ++ [27880; 37322]%N ++ runes_of_ascii "
+}
+MetaData rootA {
+uint8	tag , string	Z9_ `u8 x,` ,
+    f64 float ,
+    Logon
+falsey`a\`
+, } packet len{  char[] u	`// not a comment`, char[] Header
+`// not a comment`	, string charz
+// a // b
 /// triple
-/// triple
-,uint64 i8i8 ,char[ 42 ]options1
-@calculatedFrom( ""x y""
-),}
-,
-} packet stringy
-    /// triple
-    {	@calculatedFrom( """ ++ [28040; 24687]%N ++ runes_of_ascii """ )BodyLength	len
-    ,@lengthOf(
-u
-    ) i8i8
-metadata
-, @calculatedFrom(
-""a\\""
-) //x
-packetx
-    ,
-    f64 i8i8	@lengthOf( Header
-    )
-    , metadata
-`
-`,@lengthOf( int ) repeat falsey	,
-repeat char[]
-trueish
-,
+`tab	here` ,
+    //
+    @leftPad
+    // packet A { u8 x, }
+    ( )@lengthOf(
+a1)
+// " ++ [128512]%N ++ runes_of_ascii " emoji
+//x
+len
+crc, @leftPad ( ' ' )Packet @calculatedFrom(""" ++ [128512]%N ++ runes_of_ascii """ ) , repeat uint8 a1
+, match
+    T as As { ""packet"": Logon , [	""" ++ [128512]%N ++ runes_of_ascii """
+    , 0 ]
+: i64_ , [ ""packet"" , 7
+    ]
+    : string_ ,
+} , repeat//
+zchar[
+007 ] zchar `{ , }` ,
     }
 ")).
-Eval vm_compute in ("<<<M1682>>>" ++ check (runes_of_ascii "options {
-    BodyLength = char[7];
-}
+Eval vm_compute in ("<<<M1937>>>" ++ check (runes_of_ascii "// top
+options	// c0
 
-// c
-// @lengthOf(
-packet asx {
-    int16 x_y_z,
-    @calculatedFrom("""")
-    @lengthOf(chars)
-    //
-    repeat repeatCount charz,
-    @leftPad()
-    i64_ @calculatedFrom(""\" ++ [233]%N ++ runes_of_ascii """) `// not a comment`,
-    tag Z9_ `two words`,
-    @lengthOf(asx)
-    @calculatedFrom(""`tick`"")
-    match uint8x as matchKey {
-        0123456789 : u8x,
-        1 : zchar,
-    },
-    u128 @lengthOf(u128),
-}
+{	LittleEndian 
+      // c2
+      =	// c3a
+    // c3b
+	false // c4
 
-MetaData msg_type {
-    string BodyLength `two words`,
-    options1 i64_,
-}// " ++ [128512]%N ++ runes_of_ascii " emoji
+	;	// c5a
+// c5b
+	StringPrefixLenType // c6
+= 	 // c7a
+	// c7b
+  u8 
+;
+    ArrayPrefixLenType
+    =
+// c11
+	u64 	 // c12
 
-packet roots {
-    u ``,
-    @calculatedFrom(""a	b"")
-    match len as msg_type {
-        // c
-        """ ++ [28040; 24687]%N ++ runes_of_ascii """ : charz,
-    },
-    crc @calculatedFrom(""it's"") `a\`,
-    @leftPad('0')
-    @tag(007)
-    zchar[3] falsey,
-    @calculatedFrom(""\n"")
-    @calculatedFrom(""CRC32"")
-    // trailing space 
-    match Packet as stringy {
-        1 : Pad,
-        ""it's"" : f32a,
-    },
-    @leftPad(' ')
-    match int as a1 {
-        [0123456789, 255] : options1,
-        //x
-        //x
-    },
-    BodyLength @calculatedFrom(""" ++ [28040; 24687]%N ++ runes_of_ascii """),
-    float32 zchar @calculatedFrom(""// no comment""),
-    @tag(10)
-    zchar[1] rootA,
-}")).
+; 
+        // c13
+  FixedStringPadFromLeft 
+        // c14
+  =false
+
+    ; 	 // c17a
+  // c17b
+    FixedStringPadChar
+
+=// c19a
+    // c19b
+	' ';
+// c21
+
+}  // c22
+  packet Reject 	 // c24a
+  // c24b
+{
+repeat  // c26
+	char[ // c27a
+// c27b
+	  4  // c28
+    ] 
+    // c29
+seqNo,// c31
+	string // c32a
+  // c32b
+	Px	// c33a
+  // c33b
+		, 	 // c34
+    }
+
+    root
+    // c36
+  packet// c37
+Trade 
+    // c38
+	{	// c39a
+
+// c39b
+	@rightPad // c40
+(
+
+    // c41
+	'0'
+	)// c43a
+// c43b
+      char[ // c44
+	  2// c45
+  ]
+
+    msgKind
+    ,// c48
+    	repeat 
+      // c49
+  f64  // c50a
+// c50b
+  price 
+
+    // c51
+	, 	 // c52
+	InAcct79  // c53
+  {
+    // c54
+	repeat 
+    // c55
+	Reject
+, 	 // c57a
+	  // c57b
+zchar[ // c58
+	  7 // c59a
+
+// c59b
+	]  // c60a
+	// c60b
+  OrderId// c61
+, 
+	    // c62
+  }	// c63a
+  // c63b
+    ,
+    Reject
+
+    , } // c67a
+    // c67b")).
 Eval vm_compute in ("<<<M316>>>" ++ check (runes_of_ascii "// `tick` ""quote"" 'q'
 packet crc { @tag(0 ) //x
 chars , i8i8
@@ -426,42 +473,56 @@ rootA// packet A { u8 x, }
 , int
 {int64 chars , }// @lengthOf(
 , } 	 ")).
-Eval vm_compute in ("<<<M1653>>>" ++ check (runes_of_ascii "packet u128 {
-    @rightPad(' ')
-    i64_ {
-        Logon,
-        char[4294967296] MetaDataX @calculatedFrom(""" ++ [28040; 24687]%N ++ runes_of_ascii """),
-    },
-    rootA {
-        zchar[1] rootA,
-        asx {
-            rootA @calculatedFrom(""abc""),
-            repeat uint16 x_y_z,
-            // packet A { u8 x, }
-            zchar[42] stringy,
-            body,
-        },
-    },
-    @leftPad('\x00')
-    char[3] Z9_ @lengthOf(roots) `" ++ [233]%N ++ runes_of_ascii "`,
-    @lengthOf(charz)
-    @leftPad('0')
-    @calculatedFrom(""a\""b"")
-    zchar[7] a1 @calculatedFrom(""\" ++ [233]%N ++ runes_of_ascii """) `// not a comment`,
-    @lengthOf(lengthOf)
-    repeat i16 chars,
-    int {
-        //	t
-        zchar[1] calculatedFrom `line1
-                line2`,
-        Packet `" ++ [28040; 24687; 31867; 22411]%N ++ runes_of_ascii "`,
-    },// " ++ [128512]%N ++ runes_of_ascii " emoji
-    @rightPad('\x00')
-    zchar[255] repeatCount @calculatedFrom(""\" ++ [233]%N ++ runes_of_ascii """),
-    repeat char[] Pad `a\`,
-    @lengthOf(pack)
-    i8 int,
-}")).
+Eval vm_compute in ("<<<M237>>>" ++ check (runes_of_ascii "root
+    packet
+    asx { // `tick` ""quote"" 'q'
+f32a	,
+@calculatedFrom(
+""abc"") zchar[ 65535 ]	metadata `
+` , @calculatedFrom(// " ++ [128512]%N ++ runes_of_ascii " emoji
+""CRC32"" // `tick` ""quote"" 'q'
+) Header `doc`
+    // @lengthOf(
+    , match
+f32a as
+msg_type
+// @lengthOf(
+//x
+{ [ ""\n"" ] /// triple
+:
+charz// @lengthOf(
+0123456789 :
+pack
+    // `tick` ""quote"" 'q'
+    ,//x
+[ ""packet"" , """",
+    // @lengthOf(
+    ""`tick`"" ,
+    ""CRC32"" , ""\n"" ,
+// `tick` ""quote"" 'q'
+// trailing space 
+""it's""//	t
+,
+""it's"", //
+4294967296 ]
+:
+charz
+42
+    : leftPad , [
+255 ,	7 , ""packet"" , // trailing space 
+""{,}""
+    , ""\" ++ [233]%N ++ runes_of_ascii """ ,""1""
+    ,	""1""  ] : msg_type
+,
+    [ """ ++ [128512]%N ++ runes_of_ascii """
+    ]:  i64_ } ,  }packet body { } root packet i64_
+    { uint16  Header @calculatedFrom(
+""" ++ [233]%N ++ runes_of_ascii "t" ++ [233]%N ++ runes_of_ascii """ )
+    ``
+    ,float64 string_@calculatedFrom( // a // b
+""`tick`"") , repeat zchar[ // @lengthOf(
+1] packetx`it's` ,
+} //	t")).
 Eval vm_compute in ("<<<M1356>>>" ++ check (runes_of_ascii "options {
     StringPrefixLenType = u16;
     ArrayPrefixLenType = u32;
@@ -506,425 +567,446 @@ root packet Order {
 C32""),
 }
 ")).
-Eval vm_compute in ("<<<M1363>>>" ++ check (runes_of_ascii "options {
-    StringPrefixLenType = u8;
-    ArrayPrefixLenType = u32;
-    FixedStringPadFromLeft = true;
-    FixedStringPadChar = ' ';
+Eval vm_compute in ("<<<M1315>>>" ++ check (runes_of_ascii "// top
+packet // c0
+MDSnapshotZZ // c1a
+  // c1b
+{ // c2
+u8 a // c4
+, // c5a
+  // c5b
+} // c6
+packet OrderACK // c8
+{ // c9a
+  // c9b
+u16 b // c11
+,
+    // c12
+} // c13a
+  // c13b
+packet
+    // c14
+HTTPServerInfo
+    // c15
+{ // c16
+string s
+    // c18
+,
+    // c19
 }
-packet Leg {
-}
-packet Heartbeat {
-    zchar[6] msgKind,
-    @rightPad('0') char[3] Qty,
-    zchar[9] Side2,
-    i8 Acct,
-}
-packet Logout {
-    int8 x,
-}
-packet Order {
-    char[] Acct,
-    zchar[8] count,
-    u32 OrderId,
-    uint8 lastPx,
-    u16 clOrdID,
-    zchar[7] Note,
-}
-root packet Reject {
-    @leftPad(' ') char[8] Side2,
-    i8 clOrdID,
-    repeat f32 x,
-    u32 lastPx,
-    match lastPx as Body {
-        [30, 147] : Heartbeat,
-        134 : Leg,
-        183 : Logout,
-        40 : Order,
-    },
-    u16 Ref @calculatedFrom(""CR\
-C32""),
-}
+    // c20
+root // c21a
+  // c21b
+packet // c22
+FIXMsg // c23
+{ u8 // c25a
+  // c25b
+KType // c26a
+  // c26b
+, // c27a
+  // c27b
+MDSnapshotZZ
+    // c28
+, // c29a
+  // c29b
+repeat
+    // c30
+OrderACK , // c32a
+  // c32b
+match // c33
+KType as // c35a
+  // c35b
+Body // c36
+{
+    // c37
+1 :
+    // c39
+HTTPServerInfo , 2 // c42
+:
+    // c43
+OrderACK
+    // c44
+, } // c46a
+  // c46b
+,
+    // c47
+} // c48a
+  // c48b
 ")).
-Eval vm_compute in ("<<<M1767>>>" ++ check (runes_of_ascii "MetaData//	t
-    body
-    { 
-T
-	calculatedFrom
-
-    , 
-string f32a	`line1
-line2`
-    ,  leftPad BodyLength
-`tab	here`
-,
-
-    }options {
-}  MetaData
-
-options1
-
-    {
-
-    char[
-3 
-]
-    MetaDataX 
-	// " ++ [128512]%N ++ runes_of_ascii " emoji
-	/// triple
-  	`" ++ [28040; 24687; 31867; 22411]%N ++ runes_of_ascii "`
-    ,
-    BodyLength
-x `
-`
-	,
-
-u16
-    tag `say ""hi""`
-
-    , u8 float ,  float32 As `
-`
-	,i8i8 
-Z9_
-`
-`	,  }packet u {@tag( 42 )	options1 // c
-    o
-	`crlf
-line`
-,
-    @calculatedFrom(
-
-""`tick`""
-
+Eval vm_compute in ("<<<M366>>>" ++ check (runes_of_ascii "packet
+// @lengthOf(
+//	t
+f32a { char[] Header`" ++ [233]%N ++ runes_of_ascii "` ,  @tag( 00
+) zchar[ 255  ] int
+    , @lengthOf(	trueish)
+x @calculatedFrom( """ ++ [128512]%N ++ runes_of_ascii """
+    )`say ""hi""` , @leftPad
+    (	'\x00'
+) @lengthOf( //	t
+u128 )//	t
+repeat BodyLength ,
+falsey @lengthOf( uint8x ), //
+@lengthOf( rootA) repeat uint8 T  `a\` , repeat  string
+lengthOf
+`it's` , @leftPad(
+    '\x00' )
+zchar[ 42
 // packet A { u8 x, }
 // a // b
-
-  )
-
-repeat
-char[]	a1 
-	    //x
-	,
+] u`say ""hi""` ,// a // b
+repeat packetx
+// a // b
+// packet A { u8 x, }
+{
+Pad  f32a
+,// trailing space 
+i8i8 msg_type `say ""hi""` , i64_ repeatCount , char[]chars , } ,}MetaData _x
+{  x matchKey `" ++ [28040; 24687; 31867; 22411]%N ++ runes_of_ascii "`, }")).
+Eval vm_compute in ("<<<M1121>>>" ++ check (runes_of_ascii "// top
+root // c0
+packet // c1
+_x
+    // c2
+{ match
+    // c4
+Foo // c5
+as // c6a
+  // c6b
+Z9_ {
+    // c8
+""a	b"" // c9a
+  // c9b
+: // c10
+Pad // c11
+,
+    // c12
+} , // c14
+repeat // c15a
+  // c15b
+x `line1
+line2`
+    // c17
+, // c18
+@rightPad // c19a
+  // c19b
+(
+    // c20
+' ' // c21
+) // c22
+@calculatedFrom( ""a\\""
+    // c24
+) // c25a
+  // c25b
+metadata MetaDataX
+    // c27
+, @tag(
+    // c29
+0 ) // c31
+Logon int
+    // c33
+``
+    // c34
+,
+    // c35
+} // c36
+options // c37
+{
+    // c38
+T // c39
+= // c40a
+  // c40b
+'\x00' } // c42a
+  // c42b
+")).
+Eval vm_compute in ("<<<M1346>>>" ++ check (runes_of_ascii "options {
+    ArrayPrefixLenType = u64;
+    FixedStringPadFromLeft = true;
+    FixedStringPadChar = '0';
 }
-
-options
-	{	uint8x
-	=	true
-A
-	= // `tick` ""quote"" 'q'
-
-7	;	// packet A { u8 x, }
-
-	len
-= """ ++ [128512]%N ++ runes_of_ascii """
-} ")).
-Eval vm_compute in ("<<<M1476>>>" ++ check (runes_of_ascii "packet int {
-    // @lengthOf(
-    repeat string BodyLength `a\`,
+packet Quote {
 }
-
-packet repeatCount {
-    @lengthOf(x_y_z)
-    crc,
-    match Packet as Z9_ {
-        ""// no comment"" : MetaDataX,
-        //	t
-        // a // b
-        [00, 7] : chars,
-        ""CRC32"" : zchar,
-        42 : stringy,
-        [""a\""b"", ""1""] : u,
+packet Ack {
+    repeat InNote66 {
+        u8 pad0,
     },
-    @rightPad(' ')
-    @lengthOf(i64_)
-    repeat f64 x `two words`,
-    @calculatedFrom(""`tick`"")
-    int64 falsey @lengthOf(u128),
-    charz {
-        //x
-        char[] T `a\`,
+}
+packet Reject {
+}
+root packet Order {
+    Quote,
+    repeat Reject,
+    string venue,
+    string seqNo,
+    uint32 Ref,
+    u16 lastPx,
+    u32 clOrdID @lengthOf(Body),
+    match lastPx as Body {
+        190 : Reject,
+        186 : Quote,
+        22 : Ack,
     },
-    @lengthOf(u8x)
-    string_,
-    repeat x,
-}")).
-Eval vm_compute in ("<<<M1761>>>" ++ check (runes_of_ascii "options  {
-    ArrayPrefixLenType=  u64	; FixedStringPadFromLeft
-	=true ;FixedStringPadChar 
-=	'0';
+    u16 Flags @calculatedFrom(""CRC32""),
+}
+")).
+Eval vm_compute in ("<<<M1827>>>" ++ check (runes_of_ascii "// packet A { u8 x, }
+MetaData
 
-    }
-    packet Quote
-{ }	packet Ack
-	{repeat	InNote66 {
-u8  pad0
+roots  { char[ 00
 
-,	}  ,
-
-    } packet Reject  {}root
-    packet
-Order  {	Quote  ,
-    repeat Reject
-, 
-string
-venue,  string
-seqNo
-
-,uint32
-Ref  ,u16
-    lastPx
+    ] lengthOf
+`` ,As 
+stringy
+	,x  calculatedFrom	,	}
+packet i8i8 {
+	crc
+`crlf
+line`
     ,
 
-    u32  clOrdID @lengthOf(
-    Body)
+@rightPad	// a // b
+	( )
+
+zchar[
+    42
+    ]falsey // trailing space 
+  , 
+  /// triple
+    @tag(
+    42
+)  u32
+
+    leftPad
+    , @tag( 42)a1@lengthOf( Z9_
+    )
+    ,
+match leftPad
+
+    as 
+crc{  [
+
+""a\""b""
 ,
-	match
-	lastPx
-	as
-    Body  { 
-190
-:	Reject
-	,	186	: Quote,22:
-Ack	, } ,u16  Flags @calculatedFrom(""CR\
-C32""
+1
+,	255
 
-)
-    ,}
-")).
-Eval vm_compute in ("<<<M140>>>" ++ check (runes_of_ascii "
-root packet int{	repeat
-    float tag , char[] roots
-, @lengthOf( repeatCount ) @lengthOf( // packet A { u8 x, }
-rootA)
-uint16 o
-    `tab	here` ,
-    //	t
-    i16 Pad `line1
-line2` , Pad{match Pad as
-    _x
-{ [00]
-:
-    Z9_
-, } ,} , repeat zchar calculatedFrom`a\` ,	f64 // @lengthOf(
-charz
-    //x
-    ,Pad
-    Foo,@calculatedFrom(
-    """ ++ [28040; 24687]%N ++ runes_of_ascii """ )
-    charz
-    @lengthOf( charz ), @lengthOf(
-    rootA ) match o
-as body {00 :
-x_y_z// " ++ [128512]%N ++ runes_of_ascii " emoji
-} ,}
-")).
-Eval vm_compute in ("<<<M1331>>>" ++ check (runes_of_ascii "packet	Frame
-
-{  u8 HK 
-,  u8
-
-BK, u8
-    TK
-,match 
-HK as
-
-Hdr
-{	1
-
-    :
-    HdrA 
+]
+	:
+trueish
 ,
+    3
 
-2 : HdrB
-, },	match	BK
-as
+    : 
+float
 
-Body{  1	:
+    ,
+0:
 
-    BodyA ,  2
+lengthOf 
+, } , }
+")).
+Eval vm_compute in ("<<<M1443>>>" ++ check (runes_of_ascii "  packet metadata{//	t
+		float64
+body 
+@lengthOf(
+
+    calculatedFrom)
+	,  // a // b
+@tag(
+42
+) rootA , x_y_z
+	u8x 
+`// not a comment` ,
+    @lengthOf( 
+Pad
+    ) match	// " ++ [27880; 37322]%N ++ runes_of_ascii "
+  packetx
+as	leftPad{ 
+
+    //
+  65535
 :
+tag
+	,
+""" ++ [128512]%N ++ runes_of_ascii """
+:	_x
+	},
+x_y_z
 
-    BodyB 
-,}
-	, 
+metadata  ,
+
+@tag( 7
+    ) int64
+zchar
+
+    @lengthOf(
+    repeatCount
+	) `" ++ [233]%N ++ runes_of_ascii "`
+	,
+	@tag(0123456789
+
+) repeat
+	float 
+chars
+
+, 
+f32
+	MetaDataX,} ")).
+Eval vm_compute in ("<<<M118>>>" ++ check (runes_of_ascii "packet As{@leftPad ( )
+    char[ 0	]
+Logon, char[	0
+]
+Z9_@calculatedFrom(	""abc""
+    // c
+    ) ,  @tag( 4294967296 )
+    i64 matchKey @calculatedFrom(
+    ""// no comment""//
+)`two words` ,i16 A
+, }// " ++ [27880; 37322]%N ++ runes_of_ascii "
+packet T { zchar[
+3 ] tag// packet A { u8 x, }
+@lengthOf(
+    chars) , } packet// " ++ [128512]%N ++ runes_of_ascii " emoji
+BodyLength  {calculatedFrom @lengthOf( body )
+`
+`	, } // a // b")).
+Eval vm_compute in ("<<<M12>>>" ++ check (runes_of_ascii "options {falsey =int64; u8x = uint32	uint8x =// " ++ [128512]%N ++ runes_of_ascii " emoji
+zchar[ 1
+]
+// @lengthOf(
+/// triple
+; leftPad =
+    ""a	b"";
+    calculatedFrom
+=
+    false ;	}
+MetaData Packet
+{  zchar[
+7]  As ,} root packet	pack {
+@leftPad ( )	@tag(// trailing space 
+7 ) zchar[ 3 ] u	@lengthOf(
+// @lengthOf(
+// trailing space 
+x ),
+}
+")).
+Eval vm_compute in ("<<<M130>>>" ++ check (runes_of_ascii "packet zchar { @lengthOf( a1
+// " ++ [128512]%N ++ runes_of_ascii " emoji
+//	t
+) i64_ @lengthOf( Header )
+`" ++ [28040; 24687; 31867; 22411]%N ++ runes_of_ascii "`, charz`" ++ [233]%N ++ runes_of_ascii "` , char[007] i64_ , tag  { u16  matchKey // " ++ [27880; 37322]%N ++ runes_of_ascii "
+,match Pad as lengthOf { [""CRC32"" ,	""abc""
+] : Packet
+,	}
+, }
+    , } MetaData body {char[
+    10 ]u128
+    `doc`
+    ,
+/// triple
+//x
+} //x")).
+Eval vm_compute in ("<<<M1625>>>" ++ check (runes_of_ascii "root packet i8i8 {
+    @tag(4294967296)
+    // packet A { u8 x, }
+    Header calculatedFrom `
+        `,
+    @tag(4294967296)
+    @rightPad(' ')
+    @lengthOf(float)
+    options1 zchar `" ++ [233]%N ++ runes_of_ascii "`,
+}
+
+root packet x {
+    repeat zchar[10] x `u8 x,`,
+}")).
+Eval vm_compute in ("<<<M21>>>" ++ check (runes_of_ascii "packet  Logon //	t
+{pack	_x
+    ,
+Z9_ i8i8  `" ++ [28040; 24687; 31867; 22411]%N ++ runes_of_ascii "`	, } options
+    { tag	= 4294967296 ; As = string
+    ; rootA = true ; }root packet f32a { //x
+@leftPad
+// " ++ [27880; 37322]%N ++ runes_of_ascii "
+// c
+(' ') repeat _x`" ++ [233]%N ++ runes_of_ascii "`	, @rightPad ( )i8i8 len,}
+
+")).
+Eval vm_compute in ("<<<M265>>>" ++ check (runes_of_ascii "MetaData
+    zchar
+{
+uint8 _x
+// `tick` ""quote"" 'q'
+//
+`doc` ,
+    float64 metadata`doc` // " ++ [128512]%N ++ runes_of_ascii " emoji
+, zchar[ 42
+    ]
+// packet A { u8 x, }
+// c
+x_y_z , zchar[ 3 ]Logon `{ , }`
+, }
+
+")).
+Eval vm_compute in ("<<<M1415>>>" ++ check (runes_of_ascii "packet A
+
+    {
 match
 
-    TK as Trl {
-	1 : TrlA
-
-,} , } packet HdrA { u8 a  ,
-}packet
-    HdrB 
-{ 
-u16
-    b
-	,  }packet BodyA{ u32 c ,
-}packet
-    BodyB
-	{
-
-    u64
-d , }
-    packet
-TrlA  {  u8
-e,} root
-	packet
-Msg
-
-{ Frame
-,
-    u8
-
-x,} ")).
-Eval vm_compute in ("<<<M106>>>" ++ check (runes_of_ascii "MetaData Pad
-    {
-    i16 repeatCount , // c
-f32 pack `a\`,} packet//
-f32a {@lengthOf( metadata // a // b
-)match msg_type as matchKey
-    {
-00: rootA ,  }, @rightPad ( ) match repeatCount as len {
-    [/// triple
-""x y""
-// c
-//
-,
-10] : As , 42: i64_""" ++ [128512]%N ++ runes_of_ascii """	: BodyLength
-, 7
-: f32a  ,
-    }
-    ,	@lengthOf( BodyLength )	repeat Foo `line1
-line2` , } // @lengthOf(")).
-Eval vm_compute in ("<<<M1626>>>" ++ check (runes_of_ascii "packet float {
-    // c2
-    @rightPad()
-    // c5a
-    // c5b
-    rootA @lengthOf(trueish),
-    // c10
-    stringy @lengthOf(matchKey),// c15a
-    // c15b
-    char[4294967296] pack @lengthOf(uint8x),
-    // c23
-}// c24
-
-root packet trueish {
-    // c28
-    repeat uint64 u128 `line1
-        line2`,
-    // c33
-}
-// c34")).
-Eval vm_compute in ("<<<M182>>>" ++ check (runes_of_ascii "root packet int {match MetaDataX	as charz
-{ 255 :uint8x , 65535 : // @lengthOf(
-u128 ""\" ++ [233]%N ++ runes_of_ascii """
-:o,0123456789 : _x ""{,}"" :
-    matchKey
-// `tick` ""quote"" 'q'
-// `tick` ""quote"" 'q'
-[4294967296 ,"""" ,	10
-    ]: charz , }	, @lengthOf( roots
-) x @calculatedFrom( ""\n"" )
-    , i32
-    tag , }")).
-Eval vm_compute in ("<<<M1513>>>" ++ check (runes_of_ascii "MetaData BodyLength {
-    uint16 leftPad `" ++ [233]%N ++ runes_of_ascii "`,
-    uint8x asx,
-    len lengthOf `// not a comment`,
-    string uint8x `doc`,
-}
-
-options {
-    i8i8 = 0
-    lengthOf = 0123456789;
-}
-
-packet uint8x {
-    @lengthOf(pack)
-    float64 u8x @lengthOf(asx),
-}")).
-Eval vm_compute in ("<<<M124>>>" ++ check (runes_of_ascii "MetaData Z9_
-{zchar[4294967296 ]
-    leftPad `u8 x,`,
-}
-MetaData body { trueish
-    len `// not a comment` , }root
-packet // @lengthOf(
-u8x{ char[ 10 ] x
-    @calculatedFrom(
-// a // b
-// packet A { u8 x, }
-""\" ++ [233]%N ++ runes_of_ascii """ ) , }
-")).
-Eval vm_compute in ("<<<M1508>>>" ++ check (runes_of_ascii "packet A {
-    Inner {
-        match k as n {
-            [
-                1, 22, 007, 4, 5,
-                66, 7, 8, 9, 10,
-                11, 12
-            ] : B,
-        },
-    },
-}")).
-Eval vm_compute in ("<<<M1760>>>" ++ check (runes_of_ascii "
-packet
-A 
-{
-	u8 a
-, }	packet
-	B
-
-    {
-    u16
-    b
-,	} root 
-packet  P{ 
-u8
-K
-
-, match
-    K
+    k
 as
 
-    M
-	{
-	[
-1	,2 ] 
-:
-	A  ,3 :
-	B
-,  7
-    : 
-A
+n
+
+    {
+
+    [1
+	,
+	22
+,
+    ""c c""
+    , 4  , 
+5
+,
+
+    ""f""
     ,
-}
-	,	}")).
-Eval vm_compute in ("<<<M187>>>" ++ check (runes_of_ascii "
-options// " ++ [27880; 37322]%N ++ runes_of_ascii "
-{
-f32a= ""a\""b""//x
-; Z9_ = // " ++ [27880; 37322]%N ++ runes_of_ascii "
-""`tick`""	Logon
-    // " ++ [27880; 37322]%N ++ runes_of_ascii "
-    =""CRC32""u128= f64 ;rootA	=
-false ;} //	t
-packet lengthOf {
-} MetaData len { }
+7
+
+    ,  8
+
+,
+
+""i""
+,10  ]  :
+
+B
+, 2	:
+C } ,
+	}")).
+Eval vm_compute in ("<<<M195>>>" ++ check (runes_of_ascii "MetaData msg_type {} root packet
+A{ repeat i32 leftPad
+`it's`
+,
+    //x
+    }  root
+    packet a1
+    {char[
+    // c
+    255 ]
+    falsey // @lengthOf(
+, }")).
+Eval vm_compute in ("<<<M150>>>" ++ check (runes_of_ascii "packet
+    //	t
+    Logon {
+metadata
+@calculatedFrom( ""a\\"" ) , @tag( 42 ) // " ++ [128512]%N ++ runes_of_ascii " emoji
+@tag(	65535 )
+repeat u16 o `line1
+line2` ,
+} packet float { }
+
 ")).
-Eval vm_compute in ("<<<M1698>>>" ++ check (runes_of_ascii "MetaData chars {
-}
-
-options {
-    As = true;
-    As = false;
-    stringy = true
-}
-
-packet repeatCount {
-    string float @lengthOf(matchKey) `say ""hi""`,
-}")).
-Eval vm_compute in ("<<<M548>>>" ++ check (runes_of_ascii "packet uint8x
+Eval vm_compute in ("<<<M547>>>" ++ check (runes_of_ascii "%packet uint8x
 { match pack
     as msg_type	{
     0123456789 :	float
@@ -933,20 +1015,9 @@ Eval vm_compute in ("<<<M548>>>" ++ check (runes_of_ascii "packet uint8x
 } packet //	t
 a1
     { } options {packetx
-    ''= '\x00'	; u128= ""a	b""  ; }
-")).
-Eval vm_compute in ("<<<M452>>>" ++ check (runes_of_ascii "packet uint8x
-{ match pack
-    as msg_type	{
-    0123456789 :	float
-}
-}
-, packet //	t
-a1
-    { } options {packetx
     = '\x00'	; u128= ""a	b""  ; }
 ")).
-Eval vm_compute in ("<<<M483>>>" ++ check (runes_of_ascii "packet uint8x
+Eval vm_compute in ("<<<M502>>>" ++ check (runes_of_ascii "packet uint8x
 { match pack
     as msg_type	{
     0123456789 :	float
@@ -954,234 +1025,253 @@ Eval vm_compute in ("<<<M483>>>" ++ check (runes_of_ascii "packet uint8x
 ,
 } packet //	t
 a1
-    { } '\x00' {packetx
+    { } options {packetx
+    = ;	'\x00' u128= ""a	b""  ; }
+")).
+Eval vm_compute in ("<<<M433>>>" ++ check (runes_of_ascii "packet uint8x
+{ match pack
+    as msg_type	{
+    ""`tick`"" :	float
+}
+,
+} packet //	t
+a1
+    { } options {packetx
     = '\x00'	; u128= ""a	b""  ; }
 ")).
-Eval vm_compute in ("<<<M1534>>>" ++ check (runes_of_ascii "
-packet 
-
-    // " ++ [27880; 37322]%N ++ runes_of_ascii "
-Logon
-
-{
-	repeatCount@lengthOf(roots  ) ,
-	@tag(0
-
-    ) repeat	zchar[
-
-007] crc
-, rootA
-    a1	`{ , }`
-	,	string_ 
-`" ++ [233]%N ++ runes_of_ascii "`
-,}")).
-Eval vm_compute in ("<<<M120>>>" ++ check (runes_of_ascii "packet float {@calculatedFrom(
-// " ++ [128512]%N ++ runes_of_ascii " emoji
-// packet A { u8 x, }
-""CRC32"" )Foo `" ++ [28040; 24687; 31867; 22411]%N ++ runes_of_ascii "`	,@calculatedFrom( ""a\\"" )
-    zchar[ 0 ]	msg_type `doc` , }")).
-Eval vm_compute in ("<<<M1641>>>" ++ check (runes_of_ascii "
-
-  packet A
-	{
-	match
-
-    k
-    as 
-n  { [""a""
-,
-    22
-,	""c c"" , 4
-	, 
-""e""
-,66  ,
-    ""g""
-,	8
-
-,
-
-    ""i""
-	,10, ""k""
-]:B	2 : C	}
-
-,	}")).
-Eval vm_compute in ("<<<M649>>>" ++ check (runes_of_ascii "// @lengthOf(
+Eval vm_compute in ("<<<M678>>>" ++ check (runes_of_ascii "// @lengthOf(
 packet i8i8 { u128 o , }
-options {  = true;
+options { MetaDataX = true;
+    BodyLength =""packet"" x_y_z= 007
+crc //x
+= ""abc"" ;
+    < msg_type =
+i16 }")).
+Eval vm_compute in ("<<<M681>>>" ++ check (runes_of_ascii "// @lengthOf(
+packet i8i8 { u128 o , }
+options { MetaDataX = true;
+    BodyLength =""packet"" x_y_z= 007
+crc //x
+= ""abc"" ;
+    msg_type i16
+= }")).
+Eval vm_compute in ("<<<M706>>>" ++ check (runes_of_ascii "// @lengthOf(
+packet i8i8 { u128 o , }
+options { MetaDataX = ;
     BodyLength =""packet"" x_y_z= 007
 crc //x
 = ""abc"" ;
     msg_type =
 i16 }")).
-Eval vm_compute in ("<<<M509>>>" ++ check (runes_of_ascii "packet uint8x
-{ match pack
-    as msg_type	{
-    0123456789 :	float
-}
-,
-} packet //	t
-a1
-    { } options {packetx
-    = '\x00'")).
-Eval vm_compute in ("<<<M1589>>>" ++ check (runes_of_ascii "packet B {
-    u8 a,
-}
-
-root packet P {
-    u8 K,
-    u8 L @lengthOf(Body),
-    match K as Body {
-        1 : B,
-    },
+Eval vm_compute in ("<<<M37>>>" ++ check (runes_of_ascii "//
+root /// triple
+packet // trailing space 
+pack {
+@leftPad(
+    ' ' )
+    repeat trueish zchar ,	} root
+    packet // " ++ [27880; 37322]%N ++ runes_of_ascii "
+Header { }")).
+Eval vm_compute in ("<<<M1781>>>" ++ check (runes_of_ascii "packet A {
+    u16 len @lengthOf(body) `a
+    
+    b`,
+    u32 crc @calculatedFrom(""CRC32"") `a
+    
+    b`,
+    string body,
 }")).
-Eval vm_compute in ("<<<M1164>>>" ++ check (runes_of_ascii "MetaData leftPad { chars MetaDataX , } packet repeatCount { char[
+Eval vm_compute in ("<<<M1190>>>" ++ check (runes_of_ascii "MetaData leftPad { chars MetaDataX , } packet repeatCount { char[ 255 ] uint8x `" ++ [233]%N ++ runes_of_ascii "` , } MetaData pack { As Foo , }
 // c
-255 ] uint8x `" ++ [233]%N ++ runes_of_ascii "` , } MetaData pack { As Foo , }")).
-Eval vm_compute in ("<<<M906>>>" ++ check (runes_of_ascii "packet A {
-  match k as n {
-    [""a"", ""bb"", ""c c"", ""d"", ""e"", ""f"", ""g"", ""h"", ""i"", ""j"", ""k"", ""l""] : B,
-    2 : C
-  },
-}")).
-Eval vm_compute in ("<<<M1244>>>" ++ check (runes_of_ascii "// top
-root // c0
-packet // c1
-P { // c3
-repeat // c4
-char cs
-    // c6
-, u8 x // c9a
-  // c9b
-, }
-    // c11
 ")).
-Eval vm_compute in ("<<<M897>>>" ++ check (runes_of_ascii "packet A {
+Eval vm_compute in ("<<<M1170>>>" ++ check (runes_of_ascii "MetaData leftPad { chars MetaDataX , } packet repeatCount { char[ 255 ] uint8x
+// c
+`" ++ [233]%N ++ runes_of_ascii "` , } MetaData pack { As Foo , }")).
+Eval vm_compute in ("<<<M907>>>" ++ check (runes_of_ascii "packet A {
   match k as n {
-    [""a"", 22, ""c c"", 4, ""e"", 66, ""g"", 8, ""i"", 10, ""k""] : B,
+    [""a"", ""bb"", ""c c"", ""d"", ""e"", ""f"", ""g"", ""h"", ""i"", ""j"", ""k"", ""l""] : B
     2 : C
   },
 }")).
-Eval vm_compute in ("<<<M950>>>" ++ check (runes_of_ascii "packet A {
+Eval vm_compute in ("<<<M1442>>>" ++ check (runes_of_ascii "packet 
+A {Inner
+	{ 
+match
+
+k  as
+n  {	[ 1
+
+    , 22
+	,
+    007]	:
+
+    B
+
+    ,
+
+    },
+
+}  ,  }
+
+")).
+Eval vm_compute in ("<<<M944>>>" ++ check (runes_of_ascii "packet A {
     Inner {
-        u8 x `x
-`,
+        u8 x `a
+
+b`,
         Deep {
-            u8 y `x
-`,
+            u8 y `a
+
+b`,
         },
     },
 }")).
-Eval vm_compute in ("<<<M1>>>" ++ check (runes_of_ascii "MetaData  crc {  Pad T
-, zchar[
-    0123456789
-    ] a1 ,int8 trueish// c
-, } packet float{ }
+Eval vm_compute in ("<<<M1304>>>" ++ check (runes_of_ascii "
+packet order_item
+
+{  u8
+a
+
+    , } root
+packet
+
+    new_order{ order_item
+	,  u8
+x ,
+
+}
+
 ")).
-Eval vm_compute in ("<<<M892>>>" ++ check (runes_of_ascii "packet A {
-  match k as n {
-    [1, 22, 007, 4, 5, 66, 7, 8, 9, 10, 11] : B
-    2 : C
-  },
-}")).
-Eval vm_compute in ("<<<M873>>>" ++ check (runes_of_ascii "packet A {
-  match k as n {
-    [1, 22, ""c c"", 4, 5, ""f"", 7, 8, ""i""] : B,
-    2 : C
-  },
-}")).
-Eval vm_compute in ("<<<M617>>>" ++ check (runes_of_ascii "
+Eval vm_compute in ("<<<M610>>>" ++ check (runes_of_ascii "
+packet
+    asx {match u128 as lengthOf
+{
+//	t
+// `tick` ""quote"" 'q'
+255 : x repeat
+    } ,	}")).
+Eval vm_compute in ("<<<M598>>>" ++ check (runes_of_ascii "
+packet
+    asx {match u128 as lengthOf
+{
+//	t
+// `tick` ""quote"" 'q'
+255 : : x ,
+    } ,	}")).
+Eval vm_compute in ("<<<M569>>>" ++ check (runes_of_ascii "
+packet
+    asx {u128 match as lengthOf
+{
+//	t
+// `tick` ""quote"" 'q'
+255 : x ,
+    } ,	}")).
+Eval vm_compute in ("<<<M625>>>" ++ check (runes_of_ascii "
 packet
     asx {match u128 as lengthOf
 {
 //	t
 // `tick` ""quote"" 'q'
 255 : x ,
-    } 	}")).
-Eval vm_compute in ("<<<M1275>>>" ++ check (runes_of_ascii "
-
-  options{ FixedStringPadFromLeft
-= 
-true 
-; }root 
-packet  P {char[
-    4 ]
-z,
-	}")).
-Eval vm_compute in ("<<<M833>>>" ++ check (runes_of_ascii "packet A {
+    } ,")).
+Eval vm_compute in ("<<<M861>>>" ++ check (runes_of_ascii "packet A {
   match k as n {
-    [""a"", 22, ""c c"", 4, ""e"", 66] : B
+    [1, 22, ""c c"", 4, 5, ""f"", 7, 8] : B
     2 : C
   },
 }")).
-Eval vm_compute in ("<<<M820>>>" ++ check (runes_of_ascii "packet A {
-  match k as n {
-    [""a"", 22, ""c c"", 4, ""e""] : B
-    2 : C
-  },
+Eval vm_compute in ("<<<M1926>>>" ++ check (runes_of_ascii "packet A {
+    match k as n {
+        [1, 22, ""c c""] : B,
+        2 : C,
+    },
 }")).
-Eval vm_compute in ("<<<M890>>>" ++ check (runes_of_ascii "packet A { Inner { match k as n { [1,22,007,4,5,66,7,8,9,10] : B, }, }, }")).
-Eval vm_compute in ("<<<M791>>>" ++ check (runes_of_ascii "packet A {
-  match k as n {
-    [1, ""bb"", 007] : B,
-    2 : C
-  },
+Eval vm_compute in ("<<<M1282>>>" ++ check (runes_of_ascii "root 
+packet
+
+    P  { u16	a ,
+
+u32
+
+Sum	@calculatedFrom( ""CRC32""
+	) ,
+
+} ")).
+Eval vm_compute in ("<<<M1453>>>" ++ check (runes_of_ascii "packet A {
+    match k as n {
+        [""a""] : B,
+        2 : C,
+    },
 }")).
-Eval vm_compute in ("<<<M1127>>>" ++ check (runes_of_ascii "// top
-MetaData
-    // c0
-u
-    // c1
-{ // c2a
-  // c2b
-} // c3
-")).
-Eval vm_compute in ("<<<M812>>>" ++ check (runes_of_ascii "packet A { Inner { match k as n { [1,22,007,4] : B, }, }, }")).
-Eval vm_compute in ("<<<M1953>>>" ++ check (runes_of_ascii "MetaData
+Eval vm_compute in ("<<<M864>>>" ++ check (runes_of_ascii "packet A { Inner { match k as n { [1,22,007,4,5,66,7,8] : B, }, }, }")).
+Eval vm_compute in ("<<<M918>>>" ++ check (runes_of_ascii "packet A {
+    B b `a
+b`,
+    B `a
+b`,
+    repeat B bs `a
+b`,
+}")).
+Eval vm_compute in ("<<<M1619>>>" ++ check (runes_of_ascii "MetaData M {
+    u8 x `
+        x`,
+    T t `
+        x`,
+}")).
+Eval vm_compute in ("<<<M1824>>>" ++ check (runes_of_ascii "
 
-M
-	{ u8
+  MetaData
+    M  { 
+u8	x	`a
+b`
+,
+    T 
+t	`a
+b`
 
-    x `tab
-	x`	,
+,}")).
+Eval vm_compute in ("<<<M1215>>>" ++ check (runes_of_ascii "packet body { i32 f32a `{ , }` , } options // c
+{ }")).
+Eval vm_compute in ("<<<M1393>>>" ++ check (runes_of_ascii "  root packet 
+P
 
-T  t`tab
-	x` , }")).
-Eval vm_compute in ("<<<M1211>>>" ++ check (runes_of_ascii "packet body { i32 f32a `{ , }` , // c
-} options { }")).
-Eval vm_compute in ("<<<M347>>>" ++ check (runes_of_ascii "packet As{
-/// triple
-// packet A { u8 x, }
+{char
+
+    c 
+,
+	u8 x
+,
+
 }
-
 ")).
-Eval vm_compute in ("<<<M363>>>" ++ check (runes_of_ascii "MetaData
-    // @lengthOf(
-    tag {
-    }")).
-Eval vm_compute in ("<<<M1811>>>" ++ check (runes_of_ascii "packet A {
+Eval vm_compute in ("<<<M596>>>" ++ check (runes_of_ascii "
+packet
+    asx {match u128 as lengthOf
+{")).
+Eval vm_compute in ("<<<M1812>>>" ++ check (runes_of_ascii "packet A {
     u8 x `a
     
     b`,
 }")).
-Eval vm_compute in ("<<<M105>>>" ++ check (runes_of_ascii "// " ++ [128512]%N ++ runes_of_ascii " emoji
-MetaData crc
-    {  }")).
-Eval vm_compute in ("<<<M988>>>" ++ check (runes_of_ascii "packet A {
- u8 x `d" ++ [160]%N ++ runes_of_ascii "`, // c" ++ [160]%N ++ runes_of_ascii "
+Eval vm_compute in ("<<<M179>>>" ++ check (runes_of_ascii "// `tick` ""quote"" 'q'
+options {}")).
+Eval vm_compute in ("<<<M1003>>>" ++ check (runes_of_ascii "packet A {
+ u8 x `d" ++ [8192]%N ++ runes_of_ascii "`, // c" ++ [8192]%N ++ runes_of_ascii "
 }")).
-Eval vm_compute in ("<<<M581>>>" ++ check (runes_of_ascii "
+Eval vm_compute in ("<<<M419>>>" ++ check (runes_of_ascii "packet uint8x
+{ match pack")).
+Eval vm_compute in ("<<<M576>>>" ++ check (runes_of_ascii "
 packet
-    asx {match u128")).
-Eval vm_compute in ("<<<M414>>>" ++ check (runes_of_ascii "packet uint8x
-{ match")).
-Eval vm_compute in ("<<<M20>>>" ++ check (runes_of_ascii "packet MetaDataX { }")).
-Eval vm_compute in ("<<<M112>>>" ++ check (runes_of_ascii "packet falsey { }
-")).
-Eval vm_compute in ("<<<M1051>>>" ++ check (runes_of_ascii "packet A {
+    asx {match")).
+Eval vm_compute in ("<<<M115>>>" ++ check (runes_of_ascii "MetaData roots{ } 	 ")).
+Eval vm_compute in ("<<<M981>>>" ++ check (runes_of_ascii "packet A {
 }
-// c" ++ [65279]%N)).
-Eval vm_compute in ("<<<M1224>>>" ++ check (runes_of_ascii "// c
-packet x { }")).
+// c" ++ [12288]%N)).
+Eval vm_compute in ("<<<M1074>>>" ++ check (runes_of_ascii "MetaData M {
+}// c")).
+Eval vm_compute in ("<<<M1229>>>" ++ check (runes_of_ascii "packet x
+// c
+{ }")).
 Eval vm_compute in ("<<<M404>>>" ++ check (runes_of_ascii "packet uint8x")).
-Eval vm_compute in ("<<<M1000>>>" ++ check (runes_of_ascii "// c" ++ [8192]%N)).
-Eval vm_compute in ("<<<M731>>>" ++ check (runes_of_ascii "/")).
+Eval vm_compute in ("<<<M995>>>" ++ check (runes_of_ascii "// c" ++ [5760]%N)).
+Eval vm_compute in ("<<<M727>>>" ++ check (runes_of_ascii "")).
